@@ -317,7 +317,7 @@ def gen_scenario(rng, nsteps=None, kinds=("ebgp", "ibgp", "rr"), addpath=0.0):
         elif r < 0.78:
             pf = rng.choice(pool)
             if pf in local and rng.random() < 0.5:
-                ev.append(("apidel", pf, local.pop(pf)))
+                ev.append(("apidel", pf, local.pop(pf), rng.choice(["path", "uuid"])))
             else:
                 a = gen_attrs(rng, None)
                 ev.append(("apiadd", pf, a))
@@ -455,7 +455,7 @@ def sim_line(sc):
         elif k == "wd":
             steps.append("(upd %s (w %s 0))" % (e[1], e[2]))
         elif k in ("apiadd", "apidel"):
-            steps.append("(%s %s)" % (k, route_sx("a", e[1], e[2])))
+            steps.append("(%s %s%s)" % (k, route_sx("a", e[1], e[2]), " uuid" if (k == "apidel" and len(e) > 3 and e[3] == "uuid") else ""))
         elif k == "sleep":
             steps.append("(sleep %d)" % e[1])
         elif k in ("stall", "resume"):
